@@ -1,0 +1,20 @@
+//go:build verif
+
+package tmstate
+
+// Verification hook (add-only, compiled only with -tags verif).
+// Accessors a harness needs to detect quiescence of the two goroutines of the
+// state machine without sleeping. No behaviour is added.
+
+import "github.com/gordian-engine/gordian/tm/tmengine/internal/tmstate/internal/tsi"
+
+type VerifEnterRoundRequest = tsi.EnterRoundRequest
+
+// VerifKernelDone is closed when the state machine's kernel goroutine has returned.
+func (m *StateMachine) VerifKernelDone() <-chan struct{} { return m.kernelDone }
+
+// VerifEnterRoundRequests is the consensus manager's (unbuffered) EnterRound request channel;
+// a send on it is accepted only while the consensus manager goroutine is idle in its select.
+func (m *StateMachine) VerifEnterRoundRequests() chan<- VerifEnterRoundRequest {
+	return m.cm.EnterRoundRequests
+}
